@@ -235,42 +235,154 @@ def r1_header(rep, src, f, header, alpha):
         rep.ok('C04.R1', f.site, 'urgency value/comment split by value_re', 'group 1 = urgency, group 2 = comment (with its leading blank)')
 
 
+def _parse_val(e):
+    """canonical form of a value expressed over the inputs: regex group reads, strips, %-formats"""
+    if isinstance(e, ast.Call) and isinstance(e.func, ast.Attribute):
+        m = e.func
+        if m.attr == 'group' and len(e.args) == 1 and isinstance(e.args[0], ast.Constant) and isinstance(m.value, ast.Call) \
+                and isinstance(m.value.func, ast.Attribute) and m.value.func.attr == 'match' and len(m.value.args) == 1:
+            return ('g', norm(m.value.func.value), _parse_val(m.value.args[0]), e.args[0].value)
+        if m.attr in ('strip', 'lstrip', 'rstrip', 'lower') and not e.args:
+            return (m.attr, _parse_val(m.value))
+    if isinstance(e, ast.Subscript) and isinstance(e.slice, ast.Constant) and isinstance(e.slice.value, int) and isinstance(e.value, ast.Call) \
+            and isinstance(e.value.func, ast.Attribute) and e.value.func.attr == 'groups' and not e.value.args:
+        mm = e.value.func.value
+        if isinstance(mm, ast.Call) and isinstance(mm.func, ast.Attribute) and mm.func.attr == 'match' and len(mm.args) == 1:
+            return ('g', norm(mm.func.value), _parse_val(mm.args[0]), e.slice.value + 1)
+    if isinstance(e, ast.BinOp) and isinstance(e.op, ast.Mod) and isinstance(e.left, ast.Constant) and isinstance(e.right, ast.Tuple):
+        return ('fmt', e.left.value, tuple(_parse_val(x) for x in e.right.elts))
+    return ('x', norm(e))
+
+
 def r1b_reader_wiring(rep, src):
-    """the reader stores the groups where the writer reads them"""
-    fp = src.func(M + ':Changelog.parse_changelog')
-    want = {'package': 'top_match.group(1)', '_raw_version': 'top_match.group(2)', 'distributions': 'top_match.group(3).lstrip()',
-            'urgency': 'val_match.group(1)', 'other_pairs': 'other_pairs', 'date': 'end_match.group(4)',
-            'author': "'%s <%s>' % (end_match.group(1), end_match.group(2))", '_trailer_separator': 'end_match.group(3)'}
+    """the reader stores the groups where the writer reads them -- decided on the paths of the line loop with the locals
+    substituted away: every store into the current block is expressed over regex groups of the line"""
+    from .. import paths
+    model = Model(src, rep)
+    fp = model.f
+
+    def lh(en, st, path):
+        if isinstance(st, ast.For):
+            it = paths.subst(st.iter, path.env)
+            p0 = paths.Path()
+            p0.env = {k: v for k, v in path.env.items() if k not in paths._assigned(st)}
+            ps_ = en.run(st.body, [p0])
+            path.events.append(('inner', it, ps_, st, dict(path.env)))
+            for n in paths._assigned(st):
+                path.env[n] = paths._opaque('assigned in a loop', st)
+            return [path]
+        return None
+    en = paths.Enumerator(paths.Folder(paths.module_consts(model.mod, '')), lh, max_paths=40000)
+    ps = en.run(model.loop.body, [paths.Path()])
+    rep.analysed['paths'] += len(ps)
     got = {}
-    for n in walk_no_nested(fp.node):
-        if isinstance(n, ast.Assign) and isinstance(n.targets[0], ast.Attribute) and norm(n.targets[0].value) == 'current_block':
-            got.setdefault(n.targets[0].attr, set()).add(norm(n.value))
-    for k, v in want.items():
-        if v in got.get(k, ()):
-            rep.ok('C04.R1', fp.site, 'current_block.%s' % k, v, nontrivial=False)
+    inners = []
+    for p_ in ps:
+        for ev in p_.events:
+            if ev[0] == 'store' and ev[1].startswith('current_block.'):
+                got.setdefault(ev[1].split('.', 1)[1], {})[norm(ev[2])] = (_parse_val(ev[2]), ev[2], p_, ev[3])
+            if ev[0] == 'inner':
+                inners.append((ev, p_))
+
+    def grp(regex, n, line=None):
+        return lambda v: v[0] == 'g' and v[1] == regex and v[3] == n and model.linevar in repr(v[2])
+    want = {'package': (grp('topline', 1), 'topline group 1'), '_raw_version': (grp('topline', 2), 'topline group 2'),
+            'distributions': (lambda v: v[0] == 'lstrip' and grp('topline', 3)(v[1]), 'topline group 3, left-stripped'),
+            'date': (grp('endline', 4), 'endline group 4'), '_trailer_separator': (grp('endline', 3), 'endline group 3'),
+            'author': (lambda v: v[0] == 'fmt' and v[1] == '%s <%s>' and len(v[2]) == 2 and grp('endline', 1)(v[2][0]) and grp('endline', 2)(v[2][1]),
+                       "'%s <%s>' % (endline groups 1, 2)")}
+    for k, (pred, desc) in want.items():
+        vals = got.get(k, {})
+        if vals and all(pred(v[0]) for v in vals.values()):
+            rep.ok('C04.R1', fp.site, 'current_block.%s' % k, desc, nontrivial=False)
         else:
-            rep.fail('C04.R1', fp.site, 'current_block.%s' % k, 'the block attribute %s is filled from %s instead of %s' % (k, sorted(got.get(k, ['nothing'])), v), where=fp.where)
-    t = norm(fp.node)
-    if "pairs = line.split(';', 1)[1]" in t and "pairs.split(',')" in t and 'pair = pair.strip()' in t and 'other_pairs[key] = value' in t \
-            and "key.lower() == 'urgency'" in t:
-        rep.ok('C04.R1', fp.site, 'item loop', "split(';',1)[1].split(',') → strip → keyvalue; urgency vs other_pairs[key] = value")
+            rep.fail('C04.R1', fp.site, 'current_block.%s' % k, 'the block attribute %s is filled from %s instead of %s' % (k, sorted(vals) or ['nothing'], desc), where=fp.where)
+    # the key=value items of the header
+    hdr = [(ev, p_) for ev, p_ in inners if any(e2[0] == 'store' for q in ev[2] for e2 in q.events)]
+    shapes = {id(ev[3]) for ev, _ in hdr}
+    if len(shapes) != 1:
+        raise AnalysisError('%s: expected one loop over the key=value items of the header, found %d' % (fp.site, len(shapes)))
+    ev, outer = hdr[0]
+    it, inner_paths, loopst, env_at = ev[1], ev[2], ev[3], ev[4]
+    inner_paths = [q for e_, _ in hdr for q in e_[2]]
+    why = None
+    # items = <line>.split(';', 1)[1].split(',')   (partition(';')[2] is the same cut: the header regex guarantees the ';')
+    def cut_of(it):
+        if isinstance(it, ast.Call) and isinstance(it.func, ast.Attribute) and it.func.attr == 'split' and [norm(a_) for a_ in it.args] == ["','"]:
+            y = it.func.value
+            if isinstance(y, ast.Subscript) and isinstance(y.slice, ast.Constant) and isinstance(y.value, ast.Call) and isinstance(y.value.func, ast.Attribute):
+                c_ = y.value
+                if model.linevar not in norm(c_.func.value):
+                    return False
+                if c_.func.attr == 'split' and [norm(a_) for a_ in c_.args] == ["';'", '1'] and y.slice.value == 1:
+                    return True
+                if c_.func.attr == 'partition' and [norm(a_) for a_ in c_.args] == ["';'"] and y.slice.value == 2:
+                    return True
+        return False
+    for it in {norm(e_[1]): e_[1] for e_, _ in hdr}.values():
+        if not cut_of(it):
+            why = 'the items are taken from %s, not from the text after the first ";" split at ","' % norm(it)[:80]
+    lv = norm(loopst.target)
+    P = ('strip', ('x', lv))
+    K, V = ('g', 'keyvalue', P, 1), ('g', 'keyvalue', P, 2)
+    n_urg = n_other = 0
+    dict_other = dict_keys = None
+    for q in inner_paths:
+        urgent = None
+        for t_, pol in q.conds:
+            if isinstance(t_, ast.Compare) and len(t_.ops) == 1 and isinstance(t_.ops[0], (ast.Eq, ast.NotEq)) \
+                    and isinstance(t_.comparators[0], ast.Constant) and t_.comparators[0].value == 'urgency':
+                if _parse_val(t_.left) == ('lower', K):
+                    urgent = pol if isinstance(t_.ops[0], ast.Eq) else not pol
+                else:
+                    why = why or 'the urgency item is recognised by %s, not by the lower-cased key' % norm(t_)[:60]
+        for e2 in q.events:
+            if e2[0] != 'store':
+                continue
+            tgt = e2[3].targets[0] if isinstance(e2[3], ast.Assign) else None
+            val = _parse_val(e2[2])
+            if e2[1] == 'current_block.urgency':
+                n_urg += 1
+                if urgent is not True:
+                    why = why or 'current_block.urgency is stored for an item that is not the urgency item'
+                if val != ('g', 'value_re', V, 1):
+                    why = why or 'the urgency is %s, not group 1 of value_re on the item value' % norm(e2[2])[:70]
+            elif e2[1] == 'current_block.urgency_comment':
+                if urgent is not True or val != ('g', 'value_re', V, 2):
+                    why = why or 'the urgency comment is not group 2 of value_re on the urgency value'
+            elif isinstance(tgt, ast.Subscript) and isinstance(tgt.value, ast.Name):
+                key = _parse_val(paths.subst(tgt.slice, {k_: v_ for k_, v_ in q.env.items()}))
+                if key == K:
+                    n_other += 1
+                    dict_other = tgt.value.id
+                    if urgent is not False or val != V:
+                        why = why or 'the item %s[key] = %s is not stored for exactly the non-urgency items with the item value' % (tgt.value.id, norm(e2[2])[:40])
+                elif key == ('lower', K):
+                    dict_keys = tgt.value.id
+    if not n_urg or not n_other:
+        why = why or 'the items are not stored (urgency stores: %d, other_pairs stores: %d)' % (n_urg, n_other)
+    if why is None:
+        rep.ok('C04.R1', fp.site, 'item loop', "text after ';' → split(',') → strip → keyvalue; urgency via value_re, others into %s[key]" % dict_other)
     else:
-        rep.fail('C04.R1', fp.site, 'item loop', 'the key=value items are not cut as split(";",1)[1].split(",") / strip / keyvalue with other_pairs[key] = value', where=fp.where)
-    uc = [n for n in walk_no_nested(fp.node) if isinstance(n, ast.Assign) and norm(n.targets[0]) == 'current_block.urgency_comment']
-    if uc and norm(uc[0].value) == 'comment' and 'comment = val_match.group(2)' in t:
-        rep.ok('C04.R1', fp.site, 'current_block.urgency_comment', 'val_match.group(2)', nontrivial=False)
+        rep.fail('C04.R1', fp.site, 'item loop', 'the key=value items are not cut as split(";",1)[1].split(",") / strip / keyvalue with other_pairs[key] = value: ' + why, where=fp.where)
+    uc = got.get('urgency_comment')
+    if 'urgency_comment' in {e2[1].split('.', 1)[1] for q in inner_paths for e2 in q.events if e2[0] == 'store' and e2[1].startswith('current_block.')} and why is None:
+        rep.ok('C04.R1', fp.site, 'current_block.urgency_comment', 'value_re group 2', nontrivial=False)
     else:
         rep.fail('C04.R1', fp.site, 'current_block.urgency_comment', 'the urgency comment is not taken from group 2 of value_re', where=fp.where)
-    # per-block containers are fresh for each header
-    for name in ('other_pairs', 'all_keys'):
-        init = [n for n in walk_no_nested(fp.node) if isinstance(n, (ast.Assign, ast.AnnAssign)) and
-                norm(n.targets[0] if isinstance(n, ast.Assign) else n.target) == name and isinstance(n.value, ast.Dict)]
-        inside = [n for n in init if any(isinstance(a, ast.For) and a is not None and norm(a.target) == 'line' for a in _anc(n))]
-        if init and len(inside) == len(init):
-            rep.ok('C04.R1', fp.site, '%s is created per header' % name, 'initialised inside the header branch', nontrivial=False)
+    _ = uc
+    # per-block containers are fresh for each header: bound to an empty dict on the header path itself
+    for role, name in (('other_pairs', dict_other), ('all_keys', dict_keys)):
+        v0 = env_at.get(name) if name else None
+        fresh = isinstance(v0, ast.Dict) and not v0.keys
+        if role == 'other_pairs' and fresh:
+            st_ = got.get('other_pairs', {})
+            fresh = bool(st_) and all(isinstance(v[3], ast.Assign) and norm(v[3].value) == name for v in st_.values())
+        if fresh:
+            rep.ok('C04.R1', fp.site, '%s is created per header' % role, '%s = {} on the header path' % name, nontrivial=False)
         else:
-            rep.fail('C04.R1', fp.site, '%s is created per header' % name, 'the dictionary %s is created once and shared by all blocks: every block shows the '
-                     'key=value pairs of all headers' % name, where=fp.where)
+            rep.fail('C04.R1', fp.site, '%s is created per header' % role, 'the dictionary %s is created once and shared by all blocks: every block shows the '
+                     'key=value pairs of all headers' % (name or role), where=fp.where)
 
 
 def _anc(n):
